@@ -171,6 +171,14 @@ type gateMsg struct {
 	code int    // error code (non-zero) with
 	msg  string
 	merr bool // the handler SUCCEEDS with a value whose MarshalJSON fails with the coded error (code, msg)
+
+	// not a completion: the handler itself pushes a request to the client with ITS OWN context (through
+	// jrpc2.ServerFromContext) and then goes back to waiting for its gate
+	push       bool
+	pushN      int
+	pushWantID bool
+	pushMethod string
+	pushParams string
 }
 
 // badMarshaler is a handler result that cannot be marshalled: its MarshalJSON reports a coded error.
@@ -194,6 +202,7 @@ type srvRun struct {
 	mu      sync.Mutex
 	gates   map[string]chan gateMsg // by params text
 	started []string                // params of running handlers (entered, not yet gated)
+	notes   map[string]bool         // params of running NOTIFICATION handlers (their context never ends)
 	cbctx   map[int]*mctx
 	cbOpen  []int // callbacks issued and not yet returned
 	nops    int
@@ -232,9 +241,38 @@ func (r *srvRun) handler(ctx context.Context, req *jrpc2.Request) (any, error) {
 		r.gates[p] = g
 	}
 	r.started = append(r.started, p)
+	if req.IsNotification() {
+		r.notes[p] = true
+	}
 	r.mu.Unlock()
 	r.log.obs("start\t%s\t%s", hexf([]byte(p)), b01(ctx.Err() != nil))
 	m := <-g
+	for m.push {
+		// the handler awaits a push of its own (C09: "a notification handler may itself await a callback")
+		srv := jrpc2.ServerFromContext(ctx)
+		if srv != r.srv {
+			r.fault("ServerFromContext(handler context) is not the server")
+		}
+		var prm any
+		if m.pushParams != "" {
+			prm = json.RawMessage(m.pushParams)
+		}
+		var rsp *jrpc2.Response
+		var err error
+		if m.pushWantID {
+			rsp, err = srv.Callback(ctx, m.pushMethod, prm)
+		} else {
+			err = srv.Notify(ctx, m.pushMethod, prm)
+		}
+		r.logPushRet(m.pushN, m.pushWantID, rsp, err)
+		r.mu.Lock()
+		r.started = append(r.started, p) // listening on its gate again
+		r.mu.Unlock()
+		m = <-g
+	}
+	r.mu.Lock()
+	delete(r.notes, p)
+	r.mu.Unlock()
 	r.log.obs("gate\t%s\t%s", hexf([]byte(p)), b01(ctx.Err() != nil))
 	if m.merr {
 		return badMarshaler{m.code, m.msg}, nil
@@ -263,7 +301,7 @@ func (a assigner) Assign(ctx context.Context, method string) jrpc2.Handler {
 }
 
 func newSrvRun(cfg srvConfig, out *bufio.Writer) *srvRun {
-	r := &srvRun{cfg: cfg, log: &logger{out: out}, sc: &sched{on: true}, gates: map[string]chan gateMsg{}, cbctx: map[int]*mctx{}}
+	r := &srvRun{cfg: cfg, log: &logger{out: out}, sc: &sched{on: true}, gates: map[string]chan gateMsg{}, notes: map[string]bool{}, cbctx: map[int]*mctx{}}
 	r.srv = jrpc2.NewServer(assigner{r}, &jrpc2.ServerOptions{Concurrency: cfg.K, AllowPush: cfg.push, DisableBuiltin: !cfg.builtin})
 	var ms []string
 	for _, m := range cfg.methods {
@@ -469,29 +507,53 @@ func (r *srvRun) callPush(wantID bool, method, params string) int {
 			}
 		}
 		r.mu.Unlock()
-		switch {
-		case err == jrpc2.ErrPushUnsupported:
-			r.log.obs("ret\t%d\tunsupported", n)
-		case err == jrpc2.ErrConnClosed:
-			r.log.obs("ret\t%d\tconnclosed", n)
-		case err == context.Canceled:
-			r.log.obs("ret\t%d\tctx\tcancel", n)
-		case err == context.DeadlineExceeded:
-			r.log.obs("ret\t%d\tctx\tdeadline", n)
-		case err != nil:
-			if e, ok := err.(*jrpc2.Error); ok {
-				r.log.obs("ret\t%d\terr\t%d\t%s", n, int(e.Code), hexf([]byte(e.Message)))
-			} else {
-				r.log.obs("ret\t%d\tother\t%s", n, hexf([]byte(err.Error())))
-			}
-		case wantID:
-			r.log.obs("ret\t%d\tres\t%s", n, hexf([]byte(rsp.ResultString())))
-		default:
-			r.log.obs("ret\t%d\tok", n)
-		}
+		r.logPushRet(n, wantID, rsp, err)
 	}()
 	r.settleEnv()
 	return n
+}
+
+func (r *srvRun) logPushRet(n int, wantID bool, rsp *jrpc2.Response, err error) {
+	switch {
+	case err == jrpc2.ErrPushUnsupported:
+		r.log.obs("ret\t%d\tunsupported", n)
+	case err == jrpc2.ErrConnClosed:
+		r.log.obs("ret\t%d\tconnclosed", n)
+	case err == context.Canceled:
+		r.log.obs("ret\t%d\tctx\tcancel", n)
+	case err == context.DeadlineExceeded:
+		r.log.obs("ret\t%d\tctx\tdeadline", n)
+	case err != nil:
+		if e, ok := err.(*jrpc2.Error); ok {
+			r.log.obs("ret\t%d\terr\t%d\t%s", n, int(e.Code), hexf([]byte(e.Message)))
+		} else {
+			r.log.obs("ret\t%d\tother\t%s", n, hexf([]byte(err.Error())))
+		}
+	case wantID:
+		r.log.obs("ret\t%d\tres\t%s", n, hexf([]byte(rsp.ResultString())))
+	default:
+		r.log.obs("ret\t%d\tok", n)
+	}
+}
+
+// handlerPush makes the running notification handler with params p push a request itself, with its own
+// context (which never ends: like a context.Background push for the model), and wait for the outcome.
+func (r *srvRun) handlerPush(p string, wantID bool, method, params string) {
+	r.nops++
+	n := r.nops
+	r.log.item("env\tcallpush\t%d\t%s\t%s\t%s", n, b01(wantID), hexf([]byte(method)), hexf([]byte(params)))
+	r.mu.Lock()
+	g := r.gates[p]
+	r.cbctx[n] = &mctx{done: make(chan struct{})}
+	for i, s := range r.started {
+		if s == p {
+			r.started = append(r.started[:i], r.started[i+1:]...) // not listening on its gate meanwhile
+			break
+		}
+	}
+	r.mu.Unlock()
+	g <- gateMsg{push: true, pushN: n, pushWantID: wantID, pushMethod: method, pushParams: params}
+	r.settleEnv()
 }
 
 func (r *srvRun) cbCtxEnd(n int, deadline bool) {
